@@ -3,10 +3,12 @@
 # (instrumented builds of /repo, TLC runs) is rebuilt by the checks themselves.
 set -e
 cd "$(dirname "$0")"
-mkdir -p build/tlc evidence replays
-for f in spec/*.tla; do
-  case "$f" in *_TTrace_*) continue;; esac
-  tla-sany "$f" >/dev/null 2>&1 || { echo "SANY failed on $f"; tla-sany "$f" | tail -20; exit 1; }
-done
-gcc -O1 -g -Wall -c rt/rt.c -o build/rt_selftest.o
+mkdir -p build evidence replays
+( cd spec
+  for f in *.tla; do
+    case "$f" in *_TTrace_*) continue;; esac
+    tla-sany "$f" >/tmp/sany_$$.log 2>&1 || { echo "SANY failed on $f"; tail -20 /tmp/sany_$$.log; rm -f /tmp/sany_$$.log; exit 1; }
+  done
+  rm -f /tmp/sany_$$.log )
+gcc -O1 -g -w -c rt/rt.c -o build/rt_selftest.o
 echo setup ok
